@@ -164,7 +164,12 @@ def r2c(ctx):
     c14.r5_limit(ctx, "C15.R2c")
 
 
-RULES = [("C15.R1", r1_results_page), ("C15.R2a", r2a), ("C15.R2b", r2b), ("C15.R2c", r2c)]
+def r2d(ctx):
+    # the next-page / first-page decision reads the query parameters as sent (adversary change C15-F made every percent-escaped token a parse error)
+    c14.r4_token_wins(ctx, "C15.R2d")
+
+
+RULES = [("C15.R1", r1_results_page), ("C15.R2a", r2a), ("C15.R2b", r2b), ("C15.R2c", r2c), ("C15.R2d", r2d)]
 
 PG = "dropshot/src/pagination.rs"
 _BUILD = "        Ok(ResultsPage { next_page, items })"
@@ -227,3 +232,4 @@ SELFTEST = [
      "edits": [(PG, _CHAIN, "        let next_page = items.last().filter(|_| items.len() > 1).map_or(Ok(None), |final_item| {\n            serialize_page_token(get_page_selector(final_item, scan_params)).map(Some)\n        })?;\n")],
      "expect": ["C15.R1"], "why": "twin of map_or-ok-none: a one-item page gets no token"},
 ]
+LEVEL_TEXT += " Also (R2d = C14.R4): a presented token is looked up in the owned query map and is the only thing consulted when present."
